@@ -312,6 +312,71 @@ Restart ==
      ELSE UNCHANGED <<blob, man, tag, young>>
 
 -----------------------------------------------------------------------------
+\* Garbage collection policy (C05, C06).  internal/store/store.go: repoGarbageCollect.
+\*
+\* MustMan / MustBlobs: what no collection may remove, under every policy (C05):
+\*   tagged manifests; every manifest that is not a referrer while untagged collection is off; everything a retained
+\*   manifest references transitively (children as manifests, config and layers as blobs -- a digest reached in several
+\*   roles is retained in each of them); the referrers of a retained subject manifest with their content; and every
+\*   blob / manifest younger than the grace period.
+\* MayMan / MayBlobs: what some reading of the documented switches retains; everything outside is garbage that one
+\*   collection removes once nothing is young (C06).  The two differ only where the documented meaning of the referrer
+\*   switches is ambiguous (referrers whose subject is not a retained manifest), see DESIGN.md section 6, C05/C06.
+Young(r)  == IF Cfg.grace THEN young[r] ELSE {}
+ManSet(r) == {d \in DOMAIN man[r] : d \in blob[r]}
+IsArt(d)  == SubjectOf(d) # ""
+Tagged(r) == {tag[r][t] : t \in DOMAIN tag[r]}
+
+IndexIn(R) == {x \in R : IsMan(x) /\ M(CidOf(x)).kind = "index"}
+ImageIn(R) == {x \in R : IsMan(x) /\ M(CidOf(x)).kind = "image"}
+GCStep(r, R) == R \cup UNION {Range(M(CidOf(d)).children) \cap blob[r] : d \in IndexIn(R)}
+                  \cup {a \in ManSet(r) : IsArt(a) /\ SubjectOf(a) \in R}
+RECURSIVE GCFix(_, _)
+GCFix(r, R) == IF GCStep(r, R) = R THEN R ELSE GCFix(r, GCStep(r, R))
+BlobsOf(r, R) == R \cup UNION {({M(CidOf(d)).cfg} \cup Range(M(CidOf(d)).layers)) \cap blob[r] : d \in ImageIn(R)}
+
+RootsMust(r) == (Tagged(r) \cap blob[r]) \cup (IF ~Cfg.untagged THEN {d \in ManSet(r) : ~IsArt(d)} ELSE {})
+MustMan(r)   == GCFix(r, RootsMust(r))
+MustBlobs(r) == BlobsOf(r, MustMan(r)) \cup Young(r)
+MustAddr(r)  == (MustMan(r) \cup Young(r)) \cap ManSet(r)          \* manifests that must stay addressable
+
+\* referrers that some reading keeps although their subject is not a retained manifest
+MayArt(r, a) == \/ ~Cfg.untagged
+                \/ (~Cfg.withSubj /\ ~Cfg.dangling)
+                \/ (SubjectOf(a) \notin blob[r] /\ ~Cfg.dangling)
+RootsMay(r)  == RootsMust(r) \cup {a \in ManSet(r) : IsArt(a) /\ MayArt(r, a)} \cup (Young(r) \cap ManSet(r))
+MayMan(r)    == GCFix(r, RootsMay(r))
+MayBlobs(r)  == BlobsOf(r, MayMan(r)) \cup Young(r)
+
+\* one collection of repository r; the prediction used when generating keeps everything that may be kept,
+\* trace validation binds the result to the observation and judges it with the clauses of C05/C06
+GC(r) ==
+  /\ UNCHANGED <<sess, nsess, tag>>
+  /\ IF r \notin Repos \/ Cfg.readOnly THEN UNCHANGED <<blob, man, young>> /\ resp' = Ok(0)
+     ELSE /\ blob' = [blob EXCEPT ![r] = @ \cap MayBlobs(r)]
+          /\ man' = [man EXCEPT ![r] = Restrict(@, {d \in DOMAIN @ : d \in MayMan(r) \/ d \in Young(r)})]
+          /\ young' = [young EXCEPT ![r] = @ \cap MayBlobs(r)]
+          /\ resp' = Ok(0)
+
+\* one store wide pass: every repository is collected, whatever the order and whatever state other repositories are in
+GCPass ==
+  /\ UNCHANGED <<sess, nsess, tag>>
+  /\ IF Cfg.readOnly THEN UNCHANGED <<blob, man, young>>
+     ELSE /\ blob' = [r \in Repos |-> blob[r] \cap MayBlobs(r)]
+          /\ man' = [r \in Repos |-> Restrict(man[r], {d \in DOMAIN man[r] : d \in MayMan(r) \/ d \in Young(r)})]
+          /\ young' = [r \in Repos |-> young[r] \cap MayBlobs(r)]
+  /\ resp' = Ok(0)
+
+\* the grace period elapses for everything the repository holds
+Age(r) ==
+  /\ UNCHANGED <<blob, man, tag, sess, nsess>>
+  /\ young' = IF r \in Repos THEN [young EXCEPT ![r] = {}] ELSE young
+  /\ resp' = Ok(0)
+
+\* is the collection that Close performs on a directory store a no-op ?
+GCNoop == ~Cfg.untagged /\ ~Cfg.dangling /\ ~Cfg.withSubj /\ Cfg.grace /\ \A r \in Repos : young[r] = blob[r]
+
+-----------------------------------------------------------------------------
 InitState ==
   /\ blob = [r \in Repos |-> {}]
   /\ man = [r \in Repos |-> <<>>]
@@ -335,6 +400,9 @@ Do(op) ==
     [] op.op = "ManDel"   -> ManDel(op.repo, op.ref) /\ UNCHANGED env
     [] op.op = "TagsList" -> TagsList(op.repo, op.ni, op.last) /\ UNCHANGED env
     [] op.op = "Restart"  -> Restart /\ UNCHANGED env
+    [] op.op = "GC"       -> GC(op.repo) /\ UNCHANGED env
+    [] op.op = "GCPass"   -> GCPass /\ UNCHANGED env
+    [] op.op = "Age"      -> Age(op.repo) /\ UNCHANGED <<env>>
     [] OTHER              -> UNCHANGED <<env, blob, man, tag, sess, nsess, young>> /\ resp' = R0
 
 -----------------------------------------------------------------------------
